@@ -63,7 +63,8 @@ UNITS = [
     # proved: which operand is the subject and which the pattern, non-strings and nothing -> false, an invalid pattern -> false, search = find,
     # match = is_match of the prepared pattern
     Unit(name="regex", calls=["prepare_regex", "State::bool"], file=F, fn="regex", order=51, serves=["C10"],
-         requires=[("singular", "!(lhs.data is Refs) && !(rhs.data is Refs)")],
+         # (both operands are evaluated from the same state: which of the two roots the result carries is immaterial)
+         requires=[("singular", "!(lhs.data is Refs) && !(rhs.data is Refs)"), ("same_root", "lhs.root == rhs.root")],
          ensures=[("def", "r.root == lhs.root && r.data == Data::<'a, T>::Value(T::from_bool_spec("
                          "match (str_of(denote(lhs.data)), str_of(denote(rhs.data))) { (Some(s), Some(p)) => regex_match(s, p, substr), _ => false }))")],
          body_prefix="let ghost root0 = lhs.root;",
